@@ -297,6 +297,52 @@ Proof. intros mac t ps r H. pose proof (fsu_spec mac t) as S. rewrite H in S. de
 Definition imports_mac (mac : string) (pl : pleaf) : bool :=
   (match fst pl with [c] => c =? INTERTHREAD | _ => false end) && leaf_is mac (snd pl).
 
+(* ---- the remaining import still compiles: Rust accepts `self` only as a direct member of a braced list (E0429 otherwise);
+   file_self_use never takes the braces away from a list it keeps, so a valid tree stays valid ---- *)
+Fixpoint self_valid (in_group : bool) (t : utree) : bool :=
+  match t with
+  | UPath _ s => self_valid false s
+  | UName id => negb (id =? "self") || in_group
+  | URename id _ => negb (id =? "self") || in_group
+  | UGlob => true
+  | UGroup ts => forallb (self_valid true) ts
+  end.
+
+Definition sv_res (b : bool) (r : fres) : Prop := match snd r with Some t' => self_valid b t' = true | None => True end.
+
+Lemma group_loop_self_valid : forall mac l,
+  Forall (fun t => forall b, self_valid b t = true -> sv_res b (fsu mac t)) l ->
+  forallb (self_valid true) l = true ->
+  forallb (self_valid true) (snd (group_loop mac l)) = true.
+Proof.
+  intros mac l F. induction F as [|x r Hx Fr IH]; intros V; [reflexivity|].
+  cbn [forallb] in V. apply andb_prop in V. destruct V as [Vx Vr].
+  cbn [group_loop]. destruct (group_loop mac r) as [[path ps] items] eqn:Eg. cbn [snd] in IH.
+  specialize (Hx true Vx). destruct (fsu mac x) as [[p ps'] t'] eqn:Ef. unfold sv_res in Hx. cbn [snd] in *.
+  rewrite forallb_app. rewrite (IH Vr). destruct t' as [t'|]; cbn [opt_list forallb]; [rewrite Hx|]; reflexivity.
+Qed.
+
+Theorem fsu_self_valid : forall mac t b, self_valid b t = true -> sv_res b (fsu mac t).
+Proof.
+  intros mac t. induction t as [id s IH|id|id al| |ts IH] using utree_ind'; intros b V; unfold sv_res.
+  - cbn [fsu]. destruct (id =? INTERTHREAD).
+    + cbn [self_valid] in V. specialize (IH false V). unfold sv_res in IH.
+      destruct (fsu mac s) as [[[p|] ps] [t'|]]; cbn [snd] in *; try exact I; exact IH.
+    + cbn [snd]. exact V.
+  - cbn [fsu]. destruct (id =? mac); cbn [snd]; [exact I|exact V].
+  - cbn [fsu]. destruct (id =? mac); cbn [snd]; [exact I|exact V].
+  - cbn [fsu snd]. reflexivity.
+  - rewrite fsu_group. cbn [self_valid] in V. pose proof (group_loop_self_valid mac ts IH V) as G.
+    destruct (group_loop mac ts) as [[[p|] ps] items]; cbn [snd] in *.
+    + destruct items; cbn [snd]; [exact I|exact G].
+    + exact V.
+Qed.
+
+Example fsu_self_valid_ex :
+  snd (fsu "actor" (UPath INTERTHREAD (UGroup [UName "self"; UName "actor"]))) = Some (UPath INTERTHREAD (UGroup [UName "self"]))
+  /\ self_valid false (UPath INTERTHREAD (UGroup [UName "self"])) = true /\ self_valid false (UPath INTERTHREAD (UName "self")) = false.
+Proof. repeat split. Qed.
+
 Theorem fsu_keeps_other_macro : forall mac1 mac2 t, (mac2 =? mac1) = false ->
   filter (imports_mac mac2) (oleaves (snd (fsu mac1 t))) = filter (imports_mac mac2) (leaves t).
 Proof.
